@@ -387,6 +387,23 @@ def _tierwise_cases(quick):
             for order in ((ta, tb, tp), (tb, tp, ta), (tp, ta, tb)):
                 for op in hops:
                     yield (order, 0.0, 4.0, op)
+    # the size axis: 11 tiers of 17 entries each (interval tiers, gapped and contiguous, and point tiers)
+    E1, E2, P1 = D.long_intervals(17, True), D.long_intervals(17, False), D.long_points(17)
+    many = tuple(("I", "i%d" % k, E1 if k % 3 == 0 else E2) if k % 3 != 2 else ("P", "p%d" % k, P1) for k in range(11))
+    hi_ = E1[-1][1] + 1.0
+    cuts = D.size_cuts(E1)
+    for a, b in D.size_windows(cuts, near=2, far=1):
+        if a < 0 or b > hi_:
+            continue
+        for m in ("strict", "lax", "truncated"):
+            yield (many, 0.0, hi_, ("crop", a, b, m, a > 8))
+        yield (many, 0.0, hi_, ("erase", a, b, a > 8))
+    for s0 in cuts:
+        if 0 <= s0 <= hi_:
+            yield (many, 0.0, hi_, ("space", s0, 0.5, "split"))
+            yield (many, 0.0, hi_, ("space", s0, 2.0, "stretch"))
+    for off in (-5.0, 0.5):
+        yield (many, 0.0, hi_, ("shift", off, "silence"))
     # decimals: rounding must not break 'every tier shares the textgrid span'
     dsets = D.interval_sets(D.DEC[:5], 2)
     dE = tuple(sorted(set(D.DEC[:5] + D.DEC_EDGES[:3])))
